@@ -9,7 +9,7 @@ import (
 // Skeleton programs for dependency / fork shapes that the purely random
 // generator reaches rarely.  Types and literal values are still random.
 
-const NTemplates = 17
+const NTemplates = 18
 
 // NFileTemplates file-passing skeletons follow the NTemplates dataflow ones.
 const NFileTemplates = 10
@@ -478,6 +478,59 @@ func Template(kind int, seed int64, cfg *Config) *Program {
 			top.Ret = append(top.Ret, Binding{Id: fmt.Sprintf("yl%d", k), Exp: ref(ml, "ys")}, Binding{Id: fmt.Sprintf("sl%d", k), Exp: ref(ml, "s")})
 		}
 		p.Pipelines = []*Pipeline{mid, top}
+	case 17:
+		// chains of pipelines nested 3 and 5 deep, every level disabled by its
+		// own run-time flag (all forced false by the checks), the innermost with
+		// two sibling calls that each have a disable flag of their own (one
+		// forced true, one false): every call is governed by its own
+		// condition, not by a sibling's
+		top := &Pipeline{Name: "TOP"}
+		var pls []*Pipeline
+		for ci, depth := range []int{3, 5} {
+			pre := []string{"K", "M"}[ci]
+			fa, fb := pre+"FA", pre+"FB"
+			top.Calls = append(top.Calls,
+				&Call{Callee: "GEN", Alias: fa, Binds: []Binding{{Id: "seed", Exp: lit(s1 + int64(ci))}}},
+				&Call{Callee: "GEN", Alias: fb, Binds: []Binding{{Id: "seed", Exp: lit(s2 + int64(ci))}}})
+			// innermost
+			leaf := &Pipeline{Name: pre + "LEAF", Ins: []Param{{Name: "a", Type: TBool}, {Name: "b", Type: TBool}, {Name: "v", Type: TInt}},
+				Outs: []Param{{Name: "ya", Type: TInt}, {Name: "yb", Type: TInt}},
+				Calls: []*Call{
+					{Callee: "USE2", Alias: "WA", Disabled: self("a"), Binds: []Binding{{Id: "x", Exp: &Exp{Kind: ENull}}, {Id: "w", Exp: self("v")}}},
+					{Callee: "USE2", Alias: "WB", Disabled: self("b"), Binds: []Binding{{Id: "x", Exp: &Exp{Kind: ENull}}, {Id: "w", Exp: self("v")}}},
+				},
+				Ret: []Binding{{Id: "ya", Exp: ref("WA", "y")}, {Id: "yb", Exp: ref("WB", "y")}}}
+			pls = append(pls, leaf)
+			inner := leaf
+			// levels depth-1 .. 1: level k calls level k+1 disabled by flag k+1
+			for lvl := depth - 1; lvl >= 1; lvl-- {
+				pl := &Pipeline{Name: fmt.Sprintf("%sL%d", pre, lvl), Ins: []Param{{Name: "a", Type: TBool}, {Name: "b", Type: TBool}, {Name: "v", Type: TInt}},
+					Outs: []Param{{Name: "ya", Type: TInt}, {Name: "yb", Type: TInt}}}
+				binds := []Binding{{Id: "a", Exp: self("a")}, {Id: "b", Exp: self("b")}, {Id: "v", Exp: self("v")}}
+				for f := lvl + 1; f <= depth; f++ {
+					pl.Ins = append(pl.Ins, Param{Name: fmt.Sprintf("f%d", f), Type: TBool})
+					if f > lvl+1 {
+						binds = append(binds, Binding{Id: fmt.Sprintf("f%d", f), Exp: self(fmt.Sprintf("f%d", f))})
+					}
+				}
+				pl.Calls = []*Call{{Callee: inner.Name, Alias: "IN", Disabled: self(fmt.Sprintf("f%d", lvl+1)), Binds: binds}}
+				pl.Ret = []Binding{{Id: "ya", Exp: ref("IN", "ya")}, {Id: "yb", Exp: ref("IN", "yb")}}
+				pls = append(pls, pl)
+				inner = pl
+			}
+			binds := []Binding{{Id: "a", Exp: ref(fa, "flag")}, {Id: "b", Exp: ref(fb, "flag")}, {Id: "v", Exp: lit(s1)}}
+			for f := 1; f <= depth; f++ {
+				fl := fmt.Sprintf("%sF%d", pre, f)
+				top.Calls = append(top.Calls, &Call{Callee: "GEN", Alias: fl, Binds: []Binding{{Id: "seed", Exp: lit(s1 + int64(10*ci+f))}}})
+				if f > 1 {
+					binds = append(binds, Binding{Id: fmt.Sprintf("f%d", f), Exp: ref(fl, "flag")})
+				}
+			}
+			top.Calls = append(top.Calls, &Call{Callee: inner.Name, Alias: pre + "CHAIN", Disabled: ref(pre+"F1", "flag"), Binds: binds})
+			top.Outs = append(top.Outs, Param{Name: strings.ToLower(pre) + "ya", Type: TInt}, Param{Name: strings.ToLower(pre) + "yb", Type: TInt})
+			top.Ret = append(top.Ret, Binding{Id: strings.ToLower(pre) + "ya", Exp: ref(pre+"CHAIN", "ya")}, Binding{Id: strings.ToLower(pre) + "yb", Exp: ref(pre+"CHAIN", "yb")})
+		}
+		p.Pipelines = append(pls, top)
 	default:
 		fk := kind - NTemplates // file-passing skeleton number
 		// file-passing skeletons: a stage mapped over a run-time sized
